@@ -20,7 +20,7 @@ RULE = ('random assignments position in {absent, -2..12} to the nine criteria (b
         'position, -stab without -twopl): Solver(args) must end in SystemExit(2) with a usage message, the audit hook must not '
         'see the instance file opened and the LP tap must not see a solve; non-trivial = valid set with >= 2 criteria whose flag '
         'order differs from the position order, or an invalid set; distinct = distinct option set; evaluations = option sets')
-ASSUMPTIONS = ['criterion lines are recognised by keyword (rv/refmodel.INFO_KEYWORDS)']
+ASSUMPTIONS = ['criterion lines of the results are recognised by word stems (rv/refmodel.line_matches)']
 ENUM2NAME = {'MAXSIZE': 'maxsize', 'MINSIZE': 'minsize', 'GENEROUS': 'gen', 'GREEDY': 'gre', 'MINCOST': 'mincost',
              'MINSQCOST': 'minsqcost', 'LOADMAXBAL': 'lmb', 'LOADSUMBAL': 'lsb', 'MINCOSTLSB': 'mincostlsb'}
 WITH_EXTRAS = ('gen', 'gre', 'mincost', 'minsqcost', 'mincostlsb')
@@ -178,9 +178,9 @@ def run_case(cs, ctx):
                     txt = ex['solver'].get_results()
                     pr = op.parse_results(txt)
                     lines = [l for l in pr['info'] if l.startswith('optimisation:')]
-                    exp_kw = [rm.INFO_KEYWORDS[c[0]] for c in rm.expected_order(crits)]
+                    exp_kw = [c[0] for c in rm.expected_order(crits)]
                     ctx.cnt('second_solve_reports_judged')
-                    ok = (len(lines) <= len(exp_kw) and all(k in l for k, l in zip(exp_kw, lines)) and
+                    ok = (len(lines) <= len(exp_kw) and all(rm.line_matches(k, l) for k, l in zip(exp_kw, lines)) and
                           (pr['status'] != 'Optimal' or len(lines) == len(exp_kw)))
                     if not ok:
                         ctx.finding(en.F('C16', 'info_order_after_resolve', 'after a second solve() the results list %s, expected %s' % (lines, exp_kw)), case)
